@@ -55,15 +55,18 @@ ASSUMPTIONS = ["internal terms only (kwargs_formula external_terms=False); model
                "NLDrude_Fermider2 is run with tetra=False; with use_factor=False its dropped factor 1/2 is applied here"]
 MIN_NONTRIVIAL = {"quick": 2, "thorough": 10}
 
-PASS = {"default": 0.05, "nldrude_d2": 0.15}
-CLEAR = {"default": 0.25, "nldrude_d2": 0.35}
+PASS = {"default": 0.05, "nldrude": 0.10, "nldrude_d2": 0.15}
+CLEAR = {"default": 0.25, "nldrude": 0.30, "nldrude_d2": 0.35}
 GUARD = 0.3
-GAP_MIN = 0.4
+CONV = 0.06      # sum of the two calculators' changes between the coarse and the judged grid that still counts as converged
 
 SHELL2_3D = [[1, 1, 0], [1, 0, 1], [0, 1, 1], [1, -1, 0], [1, 0, -1], [0, 1, -1], [1, 1, 1], [1, 1, -1]]
 SHELL2_2D = [[1, 1, 0], [1, -1, 0], [2, 0, 0], [0, 2, 0]]
-GRIDS = {3: [[[4, 4, 4], [6, 6, 6]], [[3, 3, 3], [8, 8, 8]], [[6, 6, 6], [4, 4, 4]]],
-         2: [[[12, 12, 1], [6, 6, 1]], [[9, 9, 1], [8, 8, 1]], [[6, 6, 1], [12, 12, 1]]]}
+# (NKdiv, NKFFT) of the judged grid and of the coarser grid used only for the self-convergence estimate
+GRIDS = {3: [([4, 4, 4], [6, 6, 6], [4, 4, 4], [4, 4, 4]), ([3, 3, 3], [8, 8, 8], [2, 2, 2], [8, 8, 8]),
+             ([6, 6, 6], [4, 4, 4], [4, 4, 4], [4, 4, 4])],
+         2: [([12, 12, 1], [6, 6, 1], [8, 8, 1], [6, 6, 1]), ([9, 9, 1], [8, 8, 1], [6, 6, 1], [8, 8, 1]),
+             ([6, 6, 1], [12, 12, 1], [4, 4, 1], [12, 12, 1])]}
 
 
 @st.composite
@@ -85,7 +88,7 @@ def case_st(draw):
         centres.append(c)
     return dict(dim=dim, ss=ss, nw=nw, extra=[list(r) for r in extra], centres=centres,
                 lat=draw(wbsys.lattice_st()), rs=draw(st.integers(0, 2 ** 32)), decay=draw(st.sampled_from([1.0, 0.5, 2.0])),
-                split=draw(fl(0.6, 2.0, 3)), T=draw(fl(1000.0, 2000.0, 1)), nE=draw(st.integers(64, 96)),
+                tau=draw(fl(0.5, 1.0, 3)), gap=draw(fl(0.6, 1.5, 3)), T=draw(fl(1000.0, 2000.0, 1)), nE=draw(st.integers(64, 96)),
                 grid=draw(st.integers(0, 2)), use_factor=draw(st.booleans()))
 
 
@@ -97,26 +100,26 @@ def own_mesh(dim):
 
 
 def build_model(case):
+    """H(k) = diag(0,s,2s,..) + T(k) with ||T(k)||_2 <= tau for every k  =>  every direct gap >= s - 2 tau = case['gap']
+    (Weyl's inequality), so no band touching anywhere in the BZ, not only on a mesh"""
     dim = case["dim"]
     first = [[1, 0, 0], [0, 1, 0]] + ([[0, 0, 1]] if dim == 3 else [])
     p = dict(lat=case["lat"], nw=case["nw"], R=first + [list(r) for r in case["extra"]], centres=case["centres"],
              ckind="generic", keys=["Ham"] + (["SS"] if case["ss"] == "random" else []), rs=case["rs"],
              decay=case["decay"])
     model = wbsys.make_model(p)
+    H = model.mats["Ham"]
     i0 = [tuple(int(x) for x in r) for r in model.iRvec].index((0, 0, 0))
-    pts = own_mesh(dim)
-    split = float(case["split"])
-    base = model.mats["Ham"][i0].copy()
-    for _ in range(12):
-        model.mats["Ham"][i0] = base + np.diag(np.arange(model.nw) * split)
-        E = np.array([model.bands(k) for k in pts])
-        gap = float(np.min(np.diff(E, axis=1)))
-        if gap >= GAP_MIN:
-            break
-        split += 0.4
-    else:
-        raise Inconclusive("no gapped model within 12 ladder steps")
-    return model, float(E.min()), float(E.max()), gap, split
+    H[i0] = H[i0] - np.diag(np.diag(H[i0]))
+    raw = sum(float(np.linalg.norm(H[i], 2)) for i in range(len(H)))
+    H *= float(case["tau"]) / raw
+    s = float(case["gap"]) + 2 * float(case["tau"])
+    H[i0] += np.diag(np.arange(model.nw) * s)
+    E = np.array([model.bands(k) for k in own_mesh(dim)])
+    gap = float(np.min(np.diff(E, axis=1)))
+    if gap < float(case["gap"]) - 1e-9:
+        raise RuntimeError("harness: gap bound violated by own model")
+    return model, float(E.min()), float(E.max()), gap, s
 
 
 def calculators(case, Ef, smoother):
@@ -147,54 +150,70 @@ def rel(a, b):
     return maxabs(a - b) / s if s > 0 else 0.0
 
 
-def evaluate(case):
-    """-> dict(pair -> dict(rel, transp, flip, scale)), info"""
+def run_once(system, case, Ef, smoother, NKdiv, NKFFT, scratch, tag):
     import wannierberri as wb
-    from wannierberri.smoother import FermiDiracSmoother
-    from scipy.constants import Boltzmann, elementary_charge
-    model, lo, hi, gap, split = build_model(case)
-    dim = case["dim"]
-    system = wbsys.to_system(model, periodic=(True, True, dim == 3))
-    if case["ss"] == "pairs":
-        system.set_spin_pairs([(0, 1)])
-    kT = float(case["T"]) * Boltzmann / elementary_charge
-    nE = int(case["nE"])
-    Ef = np.linspace(lo - 3 * kT, hi + 3 * kT, nE)
-    smoother = FermiDiracSmoother(Ef, T_Kelvin=float(case["T"]))
-    calcs = calculators(case, Ef, smoother)
-    NKdiv, NKFFT = GRIDS[dim][case["grid"]]
     grid = wb.Grid(system, NKdiv=np.array(NKdiv), NKFFT=np.array(NKFFT), use_symmetry=False)
-    with scratch_dir() as d:
-        res = wb.run(system, grid=grid, calculators=calcs, parallel=False, adpt_num_iter=0, use_irred_kpt=False,
-                     symmetrize=False, fout_name=os.path.join(d, "res"), suffix="", restart=False,
-                     file_Klist_path=os.path.join(d, "klist"), print_progress_step_time=1e9)
-        data = {}
-        for k, v in res.results.items():
-            if list(np.array(v.Energies[0])) != list(Ef):
-                raise Violation("fermi-grid", f"{k}: result is not given on the requested Fermi grid")
-            data[k] = np.array(v.dataSmooth, dtype=float)
-    judged = np.where((Ef >= lo) & (Ef <= hi))[0]
-    if len(judged) < 20:
-        raise Inconclusive("fewer than 20 Fermi levels inside the band range")
-    sl = slice(int(judged[0]), int(judged[-1]) + 1)
-    out = {}
-    for name, ka, kb, tr in PAIRS:
-        A = data[ka][sl]
-        B = data[kb][sl]
-        if name == "nldrude_d2" and not case["use_factor"]:
-            B = 0.5 * B
-        if A.shape != B.shape:
-            raise Violation(f"{name}:shape", f"{ka} {A.shape} vs {kb} {B.shape}")
-        out[name] = dict(rel=rel(A, B), flip=rel(A, -B), transp=(rel(A, np.transpose(B, tr)) if tr else None),
-                         scale=max(maxabs(A), maxabs(B)), nzfrac=float(np.mean(np.abs(A) > 1e-3 * max(maxabs(A), 1e-300))))
-    info = dict(gap=gap, split=split, lo=lo, hi=hi, kT=kT, njudged=len(judged), NE1=int(smoother.NE1))
-    return out, info
+    res = wb.run(system, grid=grid, calculators=calculators(case, Ef, smoother), parallel=False, adpt_num_iter=0,
+                 use_irred_kpt=False, symmetrize=False, fout_name=os.path.join(scratch, "res_" + tag), suffix="",
+                 restart=False, file_Klist_path=os.path.join(scratch, "klist_" + tag), print_progress_step_time=1e9)
+    data = {}
+    for k, v in res.results.items():
+        if list(np.array(v.Energies[0])) != list(Ef):
+            raise Violation("fermi-grid", f"{k}: result is not given on the requested Fermi grid")
+        data[k] = np.array(v.dataSmooth, dtype=float)
+    return data
+
+
+class Evaluation:
+    """one case: the judged run, the pair measurements, and (lazily, only needed before a violation is declared) the
+    coarser run that tells whether the judged grid is converged"""
+
+    def __init__(self, case):
+        from wannierberri.smoother import FermiDiracSmoother
+        from scipy.constants import Boltzmann, elementary_charge
+        self.case = case
+        model, lo, hi, gap, spacing = build_model(case)
+        dim = case["dim"]
+        self.system = wbsys.to_system(model, periodic=(True, True, dim == 3))
+        if case["ss"] == "pairs":
+            self.system.set_spin_pairs([(0, 1)])
+        kT = float(case["T"]) * Boltzmann / elementary_charge
+        self.Ef = np.linspace(lo - 3 * kT, hi + 3 * kT, int(case["nE"]))
+        self.smoother = FermiDiracSmoother(self.Ef, T_Kelvin=float(case["T"]))
+        self.grids = GRIDS[dim][case["grid"]]
+        with scratch_dir() as d:
+            self.data = run_once(self.system, case, self.Ef, self.smoother, self.grids[0], self.grids[1], d, "fine")
+        judged = np.where((self.Ef >= lo) & (self.Ef <= hi))[0]
+        if len(judged) < 20:
+            raise Inconclusive("fewer than 20 Fermi levels inside the band range")
+        self.sl = slice(int(judged[0]), int(judged[-1]) + 1)
+        self.info = dict(gap=gap, spacing=spacing, lo=lo, hi=hi, kT=kT, njudged=len(judged), NE1=int(self.smoother.NE1))
+        self.out = {}
+        for name, ka, kb, tr in PAIRS:
+            A = self.data[ka][self.sl]
+            B = self.data[kb][self.sl]
+            if name == "nldrude_d2" and not case["use_factor"]:
+                B = 0.5 * B
+            if A.shape != B.shape:
+                raise Violation(f"{name}:shape", f"{ka} {A.shape} vs {kb} {B.shape}")
+            self.out[name] = dict(rel=rel(A, B), flip=rel(A, -B), transp=(rel(A, np.transpose(B, tr)) if tr else None),
+                                  scale=max(maxabs(A), maxabs(B)))
+        self._conv = None
+
+    def conv(self, name):
+        """sum of the relative changes of the two calculators of a pair between the coarser and the judged grid"""
+        if self._conv is None:
+            with scratch_dir() as d:
+                coarse = run_once(self.system, self.case, self.Ef, self.smoother, self.grids[2], self.grids[3], d, "coarse")
+            self._conv = {k: rel(self.data[k][self.sl], coarse[k][self.sl]) for k in self.data}
+        ka, kb = [(a, b) for n, a, b, _ in PAIRS if n == name][0]
+        return self._conv[ka] + self._conv[kb]
 
 
 def check(case):
-    out, info = evaluate(case)
-    margin = []
-    blind = []
+    ev = Evaluation(case)
+    out, info = ev.out, ev.info
+    margin, unconverged, blind = [], [], []
     for name, _, _, tr in PAIRS:
         r = out[name]
         p_ok = PASS.get(name, PASS["default"])
@@ -205,24 +224,31 @@ def check(case):
             blind.append(name)
             continue
         if r["rel"] > p_clear:
+            cv = ev.conv(name)
+            if not cv <= CONV:
+                unconverged.append(name)
+                continue
             how = "sign" if r["flip"] < p_ok else ("index order" if (r["transp"] is not None and r["transp"] < p_ok) else "value")
             raise Violation(f"{name}:sea-vs-surface",
-                            f"{name}: sea and partner differ by {r['rel']:.3f} of the tensor scale ({how}; sign-flipped partner "
-                            f"{r['flip']:.3f}, transposed partner {r['transp']}); dim={case['dim']} T={case['T']} "
-                            f"use_factor={case['use_factor']} gap={info['gap']:.2f} judged levels={info['njudged']}")
+                            f"{name}: the two forms differ by {r['rel']:.3f} of the tensor scale ({how}; sign-flipped partner "
+                            f"{r['flip']:.3f}, transposed partner {r['transp']}) although both changed by only "
+                            f"{cv:.3f} (sum) between the two grids; dim={case['dim']} T={case['T']} "
+                            f"use_factor={case['use_factor']} gap>={case['gap']} judged levels={info['njudged']}")
         if r["rel"] > p_ok:
             margin.append(name)
         if tr is not None and r["transp"] <= GUARD:
             blind.append(name)
+    if unconverged:
+        raise Inconclusive("not converged: " + ",".join(unconverged))
     if margin:
         raise Inconclusive("inside the margin: " + ",".join(margin))
     nt = not blind
-    worst = max(out[n]["rel"] for n, *_ in PAIRS if n != "nldrude_d2")
+    worst = max(out[n]["rel"] for n, *_ in PAIRS if n not in ("nldrude_d2", "nldrude"))
     return ok(nt, f"dim={case['dim']}", f"nw={case['nw']}", f"ss={case['ss']}", f"use_factor={case['use_factor']}",
               case["lat"]["kind"], "rel<1%" if worst < 0.01 else ("rel<2.5%" if worst < 0.025 else "rel<5%"),
+              "nldrude<5%" if out["nldrude"]["rel"] < 0.05 else "nldrude<10%",
               "d2<5%" if out["nldrude_d2"]["rel"] < 0.05 else "d2<15%",
-              ("blind:" + ",".join(blind)) if blind else "all-pairs-discriminating",
-              "ladder-raised" if info["split"] > case["split"] else "ladder-as-drawn")
+              ("blind:" + ",".join(blind)) if blind else "all-pairs-discriminating")
 
 
-SUBS = [Sub("pairs", case_st(), check, quick=4, thorough=32, budget_quick=400, budget_thorough=1500, per_shard_min=1)]
+SUBS = [Sub("pairs", case_st(), check, quick=4, thorough=32, budget_quick=600, budget_thorough=1800, per_shard_min=1)]
